@@ -172,6 +172,8 @@ type Result struct {
 	Model    string  `json:"model,omitempty"`
 	Output   string  `json:"output,omitempty"`
 	Known    string  `json:"known,omitempty"`
+	// -agree (thorough tier): answers of every solver on the plain encoding of a proved obligation
+	Agree []string `json:"agree,omitempty"`
 }
 
 type solverSpec struct {
@@ -479,6 +481,37 @@ func (v *Verifier) Discharge(work string, tmo int, par int, depth int) []*Result
 		}
 	}
 	wg.Wait()
+	if v.agree {
+		// cross-solver agreement: every proved obligation is put to all solvers on the plain encoding (the abstractions can
+		// only lose facts, so they are not part of the comparison); a "sat" from any of them against the "unsat" that was
+		// accepted is a disagreement: a solver defect or a query that means different things to different solvers
+		sem3 := make(chan struct{}, par)
+		for i, o := range v.obligations {
+			r := results[i]
+			if r.Status != "proved" || o.Expect != "unsat" {
+				continue
+			}
+			wg.Add(1)
+			go func(i int, r *Result) {
+				defer wg.Done()
+				sem3 <- struct{}{}
+				defer func() { <-sem3 }()
+				for _, sp := range solvers {
+					if sp.skip(texts[i]) {
+						r.Agree = append(r.Agree, sp.name+": skipped (unsupported syntax)")
+						continue
+					}
+					a, _, sec := runSolver(context.Background(), sp, files[i], tmo)
+					r.Agree = append(r.Agree, fmt.Sprintf("%s: %s (%.2fs)", sp.name, a, sec))
+					if a == "sat" {
+						r.Status = "error"
+						r.Output = "solver disagreement: accepted unsat from " + r.Solver + ", but " + strings.Join(r.Agree, "; ")
+					}
+				}
+			}(i, r)
+		}
+		wg.Wait()
+	}
 	return results
 }
 
